@@ -9,9 +9,10 @@
      struct priq               record { size; argv }   argc = length argv
    Indices are nat; the C uses int, so heaps of more than 2^30 entries (overflow of 2*i+2)
    are outside the model.  Loops that are not structurally recursive carry explicit fuel; the
-   out-of-fuel value is the array as it is, and Facts shows the fuel given by the callers is
-   never exhausted before the loop's own exit (fuel_enough lemmas are implicit in the
-   correctness proofs, which hold for the fuel used here). *)
+   out-of-fuel value is the array as it is.  The callers pass fuel n (sift outward over n-1
+   slots) and n+1 (sift inward from slot n); Facts.siftOut_spec / siftIn_spec are proved under
+   exactly these bounds (n <= i + fuel, i < fuel), i.e. the loop's own exit is always reached
+   first and the out-of-fuel value never is the result. *)
 
 Require Import ZArith List Bool.
 Import ListNotations.
